@@ -237,10 +237,9 @@ Definition first_word (l : list gem_elem) : Prop :=
   match l with [] => True | e :: _ => gcat e = cat_qualifier end.
 
 (* what a parsed version looks like: numbers not negative; elements numerals or words, the
-   first one a word (the prerelease starts at a letter or at the dash, which reads pre), the
-   last one not a numeral of value 0 *)
+   first one a word (the prerelease starts at a letter or at the dash, which reads pre) *)
 Definition gem_c02_wf (nums : list Z) (l : list gem_elem) : Prop :=
-  Forall (fun z => 0 <= z) nums /\ Forall gwf l /\ first_word l /\ gem_last_ok l = true.
+  Forall (fun z => 0 <= z) nums /\ Forall gwf l /\ first_word l.
 
 Lemma seg_of_word e : gcat e = cat_qualifier -> seg_of e = GStr (ge_str e).
 Proof. unfold seg_of. intros ->. reflexivity. Qed.
@@ -252,22 +251,10 @@ Proof.
   - rewrite IH. reflexivity.
 Qed.
 
-Lemma seg_zero e : gwf e -> is_zero (seg_of e) = true -> gem_is_num e = true /\ ge_int e = 0.
+Lemma starts_str_dtz b : starts_str b -> starts_str (drop_trailing_zeros b).
 Proof.
-  intros W Z. unfold seg_of in Z. rewrite <- gcat_num_iff.
-  destruct W as [[C I]|C]; rewrite C in *; simpl in Z; [|discriminate].
-  split; auto. apply N.eqb_eq in Z. lia.
-Qed.
-
-Lemma dtz_segs l : Forall gwf l -> gem_last_ok l = true -> drop_trailing_zeros (map seg_of l) = map seg_of l.
-Proof.
-  induction 1 as [|e t He Ht IH]; intros L; auto.
-  destruct t as [|e' t'].
-  - simpl. destruct (is_zero (seg_of e)) eqn:Z; auto.
-    destruct (seg_zero e He Z) as [Z1 Z2]. simpl in L. rewrite Z1, Z2 in L. discriminate.
-  - change (gem_last_ok (e :: e' :: t')) with (gem_last_ok (e' :: t')) in L.
-    change (map seg_of (e :: e' :: t')) with (seg_of e :: map seg_of (e' :: t')).
-    cbn [drop_trailing_zeros]. rewrite (IH L). reflexivity.
+  destruct b as [|x t]; simpl; auto. destruct x as [n|s0]; [contradiction|]. intros _.
+  destruct (drop_trailing_zeros t); simpl; auto.
 Qed.
 
 Lemma zint_not_str nums : Forall (fun x => is_gstr x = false) (map zint nums).
@@ -291,12 +278,12 @@ Qed.
 Theorem gem_compare_spec na nb xs ys : gem_c02_wf na xs -> gem_c02_wf nb ys ->
   gem_compare na nb xs ys = g_cmp (g_canonical (segs_of na xs)) (g_canonical (segs_of nb ys)).
 Proof.
-  intros [Na [Wx [Fx Lx]]] [Nb [Wy [Fy Ly]]].
-  rewrite (gem_compare_key na nb xs ys Lx Ly). unfold g_canonical.
-  rewrite (g_split_segs na xs Fx), (g_split_segs nb ys Fy), (dtz_segs xs Wx Lx), (dtz_segs ys Wy Ly), g_cmp_pad.
-  rewrite concat_lex; auto using nz_ints_dtz, zint_not_str, starts_str_segs.
+  intros [Na [Wx Fx]] [Nb [Wy Fy]].
+  rewrite (gem_compare_key na nb xs ys). unfold g_canonical.
+  rewrite (g_split_segs na xs Fx), (g_split_segs nb ys Fy), g_cmp_pad.
+  rewrite concat_lex; auto using nz_ints_dtz, zint_not_str, starts_str_segs, starts_str_dtz.
   unfold gem_key_cmp, lex. simpl fst. simpl snd.
-  rewrite pad_lex_dtz, <- (compare_nums_segs na nb Na Nb), (pre_opt_segs xs ys) by auto. reflexivity.
+  rewrite !pad_lex_dtz, <- (compare_nums_segs na nb Na Nb), (pre_opt_segs xs ys) by auto. reflexivity.
 Qed.
 
 (* on versions *)
@@ -342,9 +329,9 @@ Lemma gem_dotdash_witness :
   gspec_compare s_1a0a s_1a_b = Some 1.
 Proof. vm_compute. repeat split; reflexivity. Qed.
 
-(* the final length test against the reference *)
+(* the pair of the repaired finding F-C01-3 agrees with the reference: 1.a = 1.a.00 *)
 Lemma gem_tail_witness :
-  cmp_strings true s_1a s_1a00 = Some (-1) /\ gspec_compare s_1a s_1a00 = Some 0.
+  cmp_strings true s_1a s_1a00 = Some 0 /\ gspec_compare s_1a s_1a00 = Some 0.
 Proof. vm_compute. repeat split; reflexivity. Qed.
 
 (* non-vacuity of the agreement theorem: 1.2.3.a.1 and 1.2.3 parse into its domain *)
@@ -356,11 +343,11 @@ Proof.
   intros S [l E] H. unfold c02_wf_b in H.
   repeat (apply andb_true_iff in H; destruct H as [H ?]).
   split; auto. split; [unfold gem_elems; rewrite E; reflexivity|].
-  split; [|split; [|split]]; auto.
+  split; [|split]; auto.
   - apply Forall_forall. intros z Hz. rewrite forallb_forall in H. apply Z.leb_le. auto.
-  - apply Forall_forall. intros e He. rewrite forallb_forall in H2. specialize (H2 e He).
-    apply orb_true_iff in H2. destruct H2 as [H2|H2].
-    + apply andb_true_iff in H2. destruct H2 as [A B]. left. split; [apply Z.eqb_eq | apply Z.leb_le]; auto.
+  - apply Forall_forall. intros e He. rewrite forallb_forall in H1. specialize (H1 e He).
+    apply orb_true_iff in H1. destruct H1 as [H1|H1].
+    + apply andb_true_iff in H1. destruct H1 as [A B]. left. split; [apply Z.eqb_eq | apply Z.leb_le]; auto.
     + right. apply Z.eqb_eq; auto.
   - destruct (gem_elems v); simpl; auto. apply Z.eqb_eq; auto.
 Qed.
